@@ -474,7 +474,7 @@ func daysIn(m, y int) int {
 func (g *gen) timeStream() {
 	dt := xsd + "dateTime"
 	rng := g.cfg.Rng
-	n := g.cfg.Pick(60, 1500)
+	n := g.cfg.Pick(240, 3000)
 	seen := map[string]string{}
 	for i := 0; i < n; i++ {
 		hi := 0
@@ -507,6 +507,28 @@ func (g *gen) timeStream() {
 		}
 		// instant, computed independently of the spelling
 		base := time.Date(y, time.Month(mo), d, hh, mi, ss, 0, time.UTC).Unix()
+		if i%3 == 0 {
+			// machine-word boundaries of the instant: +-2^63 ns (1677-09-21 / 2262-04-11), +-2^31 s,
+			// 2^32 s, the epoch, year 1 / 9999 edges, and their neighbourhoods up to a year away
+			bs := []int64{-9223372037, 9223372036, -2147483648, 2147483647, 4294967295, 0,
+				-62135596800, 253402300799, -11644473600, 32503680000, 9223372036 + 100*86400, -9223372037 - 100*86400}
+			ds := []int64{0, 1, -1, 2, -2, 60, -60, 86400, -86400, 30 * 86400, -30 * 86400, 200 * 86400, -200 * 86400}
+			base = bs[rng.Intn(len(bs))] + ds[rng.Intn(len(ds))]
+			if rng.Intn(3) == 0 {
+				base += rng.Int63n(2*365*86400) - 365*86400
+			}
+			if base < -62135596800+2*86400 {
+				base = -62135596800 + 2*86400
+			}
+			if base > 253402300799-2*86400 {
+				base = 253402300799 - 2*86400
+			}
+			if nd > 0 && rng.Intn(2) == 0 {
+				frac = []string{"854775807", "854775808", "145224192", "145224191", "999999999", "000000001"}[rng.Intn(6)]
+				nd = 9
+				ns, _ = strconv.ParseInt(frac, 10, 64)
+			}
+		}
 		offs := []int{0, 0, 60, -60, 3600, -3600, 5*3600 + 30*60, -(9*3600 + 45*60), 14 * 3600, -12 * 3600, 24 * 3600, 23*3600 + 59*60}
 		// the same instant written with several offsets
 		nsp := 1 + rng.Intn(3)
